@@ -92,6 +92,15 @@ fn main() {
             let v = NoisyClone(3, cnt.clone());
             let (hs, out) = build(Box::new(move || Unimock::new((CpMock::cl.each_call(matching!()).returns(v), unmet()))));
             let r = unwind_with(hs, |u| { let a = u.cl(); assert_eq!(a.0, 3); u.cl(); });
+            // the clause is still usable after the caught panic (the third clone succeeds): no lock may have been poisoned
+            let r = r.and_then(|got| match &out {
+                Some(u) => match catch_unwind(AssertUnwindSafe(|| u.cl().0)) {
+                    Ok(3) => Ok(got),
+                    Ok(v) => Err(format!("after the caught Clone panic the clause returned {v}")),
+                    Err(p) => Err(format!("after the caught Clone panic the same clause panics: {}", p.downcast_ref::<String>().cloned().unwrap_or_default().lines().next().unwrap_or(""))),
+                },
+                None => Ok(got),
+            });
             after(out, r)
         }
         // PartialEq panics inside eq!
